@@ -116,6 +116,11 @@ func runC16(r *Run, replay *Case) {
 		}
 		return
 	}
+	for _, cs := range c16Cases() {
+		if !strings.Contains(cs.files[cs.page], "layout:") {
+			r.Add(pageCase("once:"+cs.desc, cs.files, nil, cs.page, map[string]any{"items": []any{1, 2, 3}}))
+		}
+	}
 	r.Res.Rule = "placements of one or more v-once elements (top level, loop child, loop root, nested loops, component included 1..3 times, several components, component in a loop, layout + page, v-if branch) x " +
 		"four entry points x 3 repeated renders on one engine; non-trivial = every case; distinct by (placement, entry point)"
 	for _, cs := range c16Cases() {
